@@ -19,6 +19,7 @@ type XField struct {
 	Enum     string // referenced enum name, "" none
 	Ext      bool
 	Desc     string
+	Attrs    string // further attributes, printed verbatim (display, units, print_format, ...)
 }
 
 // XMLType renders the type attribute.
@@ -69,11 +70,49 @@ type XDialect struct {
 	Files []XFile
 	// Negative, when non-empty, names the single defect that makes the definition inexpressible.
 	Negative string
+	// ExtraProbe lists, per enum, further values the probe renders and parses back (see SiblingOf).
+	ExtraProbe map[string][]uint64
+}
+
+// SiblingOf builds a second top-level definition that lives in the same directory as d and includes the same
+// files as d's top-level file, but defines nothing itself. What d's top-level file adds to the enums of the
+// included files belongs to d alone: in the sibling those values are unnamed, and they are probed.
+func SiblingOf(d XDialect) (XDialect, bool) {
+	if len(d.Files) < 2 || d.Negative != "" {
+		return XDialect{}, false
+	}
+	top := XFile{Name: d.Files[0].Name + "sib", Version: d.Files[0].Version, Includes: append([]string(nil), d.Files[0].Includes...)}
+	s := XDialect{Files: append([]XFile{top}, d.Files[1:]...), ExtraProbe: map[string][]uint64{}}
+	_, entries, bitmask := s.MergedEnums()
+	for _, m := range s.AllMsgs() {
+		for _, f := range m.Fields {
+			if _, ok := entries[f.Enum]; f.Enum != "" && !ok {
+				return XDialect{}, false // the included files are not self-contained: they use an enum only d defines
+			}
+		}
+	}
+	for _, e := range d.Files[0].Enums {
+		base, ok := entries[e.Name]
+		if !ok || bitmask[e.Name] {
+			continue
+		}
+		named := map[uint64]bool{}
+		for _, b := range base {
+			named[b.Value] = true
+		}
+		for _, x := range e.Entries {
+			if !named[x.Value] {
+				s.ExtraProbe[e.Name] = append(s.ExtraProbe[e.Name], x.Value)
+			}
+		}
+	}
+	return s, true
 }
 
 func esc(s string) string {
 	s = strings.ReplaceAll(s, "&", "&amp;")
 	s = strings.ReplaceAll(s, "<", "&lt;")
+	s = strings.ReplaceAll(s, "\x01", "&") // character / entity references, see drawDesc
 	return s
 }
 
@@ -133,7 +172,7 @@ func (f XFile) XML() string {
 			if fl.Enum != "" {
 				en = fmt.Sprintf(" enum=\"%s\"", fl.Enum)
 			}
-			fmt.Fprintf(&b, "      <field type=\"%s\" name=\"%s\"%s>%s</field>\n", fl.XMLType(), fl.Name, en, esc(fl.Desc))
+			fmt.Fprintf(&b, "      <field type=\"%s\" name=\"%s\"%s%s>%s</field>\n", fl.XMLType(), fl.Name, en, fl.Attrs, esc(fl.Desc))
 		}
 		b.WriteString("    </message>\n")
 	}
